@@ -12,6 +12,7 @@ import errno as _errno
 import io
 import os
 import sys
+import threading
 
 _real = {}
 ANON = object()
@@ -194,6 +195,7 @@ class SimFS:
         self.listing_rng = None
         self.mtime_source = None
         self.counts = {}
+        self.excl_busy = []  # (thread id, path) of O_EXCL creates that failed with EEXIST
 
     def _raw_write(self, fd, data):
         mv = memoryview(data)
@@ -321,7 +323,12 @@ class SimFS:
             existed = False
         if existed and (flags & os.O_CREAT) and (flags & os.O_EXCL):
             self._ev("open-x-exists", (ap,), False)
-            return self._call("os_open", path, flags, mode, dir_fd=dir_fd)
+            try:
+                return self._call("os_open", path, flags, mode, dir_fd=dir_fd)
+            except FileExistsError:
+                # who found a lock file held (the syscall itself failed, not our peek)
+                self.excl_busy.append((threading.get_ident(), ap))
+                raise
         if not existed and not (flags & os.O_CREAT):
             self._ev("open-w-missing", (ap,), False)
             return self._call("os_open", path, flags, mode, dir_fd=dir_fd)
@@ -332,7 +339,12 @@ class SimFS:
         else:
             kind, mut = "open-w", False
         self._ev(kind, (ap,), mut)
-        fd = self._call("os_open", path, flags, mode, dir_fd=dir_fd)
+        try:
+            fd = self._call("os_open", path, flags, mode, dir_fd=dir_fd)
+        except FileExistsError:
+            if flags & os.O_EXCL:
+                self.excl_busy.append((threading.get_ident(), ap))
+            raise
         self.fd_paths[fd] = ap
         return fd
 
